@@ -7,11 +7,13 @@
     the [world] too.  [read_response v fuel] is SmtLibSolverCtx::read_response with the loop bounded
     by [fuel] ([OutOfFuel] = the loop wants more than [fuel] iterations); [Cur] is today's code,
     [Fix] the repaired reader (end of stream inside the balancing loop is an error; the message of
-    an error reply is the text between the first and the last double quote).
+    an error reply is the text between the first and the last double quote; = /repo today),
+    [Fix2] = [Fix] without the blank that is pushed before every continuation line of a reply
+    (patches/0019-fix-read-response-no-extra-blank.diff; section "Fix2" below).
     A client of the solver interface that propagates every error with `?` is a [prog]; [run] is
     the error monad; [bmc_prog c] is the conversation of mc/bmc.rs; [session] adds Drop. *)
 From Coq Require Import String List ZArith.
-From Patronus Require Import SolverIO SolverIOProofs.
+From Patronus Require Import SolverIO SolverIOProofs SolverIOFix2Proofs.
 Import ListNotations.
 Import SIO.
 Open Scope string_scope.
@@ -119,17 +121,25 @@ Print Assumptions C15_error_unmangled_plain.
 
 (** When does the reader wait?  Only for a LIVE solver that has so far written nothing, or a reply
     that is still open under the reader's own parenthesis count (repaired reader: lexically open).
-    That is the one class of "blocking" the property cannot forbid to a reader without a timeout. *)
+    That is the one class of "blocking" the property cannot forbid to a reader without a timeout.
+    All three variants; [join_lines v l r] is the text the variant has joined from the lines
+    ([Cur], [Fix]: a blank before every further line, [C15_join_lines_meaning]; [Fix2]: the lines as they are). *)
 Theorem C15_blocked_only_on_open_reply :
   forall (v : variant) (fuel : nat) (w : world),
     read_response v fuel w = Blocked ->
     w_tail w = TAlive /\
     match w_lines w with
     | [] => True
-    | l :: r => (0 < count_v v (join_lines l r))%Z
+    | l :: r => (0 < count_v v (join_lines v l r))%Z
     end.
 Proof. exact read_response_blocked_open. Qed.
 Print Assumptions C15_blocked_only_on_open_reply.
+
+Theorem C15_join_lines_meaning :
+  (forall (v : variant) (resp : string) (ls : list string), v <> Fix2 -> join_lines v resp ls = join_blank resp ls)
+  /\ (forall (resp : string) (ls : list string), join_lines Fix2 resp ls = resp ++ concat_s ls).
+Proof. exact (conj join_lines_blank join_lines_fix2). Qed.
+Print Assumptions C15_join_lines_meaning.
 
 (** Today's reader NEVER hands the message over: for every such reply the result is different from
     [Err (EFromSolver msg)] (solver.rs:267 cuts [7 .. len-8]: a panic, or 5 bytes too few) ... *)
@@ -252,6 +262,144 @@ Example C15_examples_blocking :
 "] TAlive) = Blocked.
 Proof. vm_compute. repeat split; reflexivity. Qed.
 
+Definition trim_of (r : res string) : option string := match r with Ok t _ => Some (trim t) | _ => None end.
+
+(* ================================================================== Fix2: the reader without the extra blank *)
+
+(** ** [Fix2] = /repo after patches/0019-fix-read-response-no-extra-blank.diff
+
+    The theorems above that quantify over the variant ([C15_sat_only_on_exact], [C15_never_unknown],
+    [C15_blocked_only_on_open_reply], [C15_broken_pipe_is_error], [C15_client_propagates],
+    [C15_bmc_propagates], [C15_bmc_verdict_intact]) cover [Fix2] as they stand.  Those stated of [Fix] are
+    restated here of [Fix2], so that nothing is lost when [Fix2] becomes the model of /repo. *)
+
+Theorem C15_fix2_read_total :
+  forall (fuel : nat) (w : world),
+    length (w_lines w) <= fuel -> read_response Fix2 fuel w <> OutOfFuel.
+Proof. exact read_response_fix2_total. Qed.
+Print Assumptions C15_fix2_read_total.
+
+Theorem C15_fix2_read_total_reads :
+  forall (fuel : nat) (w : world),
+    match read_response Fix2 fuel w with
+    | Ok _ w' | Err _ w' => w_reads w' + length (w_lines w') <= w_reads w + length (w_lines w) + 1
+    | _ => True
+    end.
+Proof. exact read_response_fix2_reads. Qed.
+Print Assumptions C15_fix2_read_total_reads.
+
+Theorem C15_fix2_session_total :
+  forall (pv pc : string -> bool) (fuel : nat) (A : Type) (p : prog A) (w : world),
+    length (w_lines w) <= fuel -> session pv pc Fix2 fuel p w <> OutOfFuel.
+Proof. exact session_fix2_total. Qed.
+Print Assumptions C15_fix2_session_total.
+
+Theorem C15_fix2_never_panics :
+  forall (fuel : nat) (w : world) (l : string), read_response Fix2 fuel w <> Panic l.
+Proof. exact read_response_fix2_no_panic. Qed.
+Print Assumptions C15_fix2_never_panics.
+
+Theorem C15_fix2_error_unmangled :
+  forall (fuel : nat) (w : world) (pre post msg : string) (rest : list string),
+    w_lines w = (pre ++ error_reply msg ++ post) :: rest ->
+    all_ws pre = true -> all_ws post = true ->
+    (count_parens_aware (pre ++ error_reply msg ++ post) <= 0)%Z ->
+    read_response Fix2 fuel w = Err (EFromSolver msg) (after_one_line w rest).
+Proof. exact error_unmangled_fix2_lemma. Qed.
+Print Assumptions C15_fix2_error_unmangled.
+
+Theorem C15_fix2_error_unmangled_plain :
+  forall (fuel : nat) (w : world) (pre post msg : string) (rest : list string),
+    w_lines w = (pre ++ error_reply msg ++ post) :: rest ->
+    all_ws pre = true -> all_ws post = true -> has_quote msg = false ->
+    read_response Fix2 fuel w = Err (EFromSolver msg) (after_one_line w rest).
+Proof. exact error_unmangled_plain_fix2_lemma. Qed.
+Print Assumptions C15_fix2_error_unmangled_plain.
+
+(** error_unmangled for messages of SEVERAL lines (cvc5 prints such).  The reply  pre (error "msg") post,
+    msg ANY bytes except the double quote - line breaks, blank lines, parentheses, bars included -, arrives
+    split into the lines [first :: more] in any way ([concat_s] puts the text together again; where the
+    solver breaks the lines is not restricted to the line breaks of the message).  Side conditions: no
+    line is empty (read_line returns an empty line only at end of stream), and the first and the last
+    line are not blank, i.e. the reply begins in the first and ends in the last of these lines.  Then the
+    reader consumes exactly these lines and returns FromSolver(msg) with exactly msg. *)
+Theorem C15_error_unmangled_multiline :
+  forall (fuel : nat) (w : world) (pre post msg first : string) (more rest : list string),
+    w_lines w = first :: (more ++ rest)%list ->
+    concat_s (first :: more) = pre ++ error_reply msg ++ post ->
+    all_ws pre = true -> all_ws post = true -> has_quote msg = false ->
+    all_ws first = false ->
+    Forall (fun l => l <> "") more ->
+    (more = [] \/ all_ws (last more "") = false) ->
+    length more <= fuel ->
+    read_response Fix2 fuel w = Err (EFromSolver msg) (after_lines w (S (length more)) rest).
+Proof. exact error_unmangled_multiline_lemma. Qed.
+Print Assumptions C15_error_unmangled_multiline.
+
+(** ... and this is FALSE of the reader that pushes a blank before every continuation line ([Fix] = /repo
+    before patches/0019): the two-line reply [two_line_world] satisfies the hypotheses above, [Fix2] returns
+    its message, [Fix] returns it with a blank after the line break, whatever the fuel. *)
+Theorem C15_error_unmangled_multiline_refuted :
+  read_response Fix2 9 two_line_world = Err (EFromSolver two_line_msg) (mkW [] TAlive [] None [] 2)
+  /\ read_response Fix 9 two_line_world = Err (EFromSolver "first line of the message
+ second line") (mkW [] TAlive [] None [] 2)
+  /\ (forall fuel : nat, 1 <= fuel ->
+        read_response Fix fuel two_line_world <> Err (EFromSolver two_line_msg) (mkW [] TAlive [] None [] 2)).
+Proof. exact error_multiline_fix_blank. Qed.
+Print Assumptions C15_error_unmangled_multiline_refuted.
+
+(** non-vacuity: the two-line reply is an instance of the theorem; a message of four lines with a blank
+    line, parentheses and a bar in it, followed by another reply: [Fix2] hands it over intact and leaves the
+    next reply unread, [Fix] inserts three blanks; a get-value reply split over three lines reads the same
+    under both (the line breaks separate the tokens), and so does a BMC session. *)
+Example C15_fix2_examples :
+  (w_lines two_line_world = "(error ""first line of the message
+" :: (["second line"")
+"] ++ [])%list
+   /\ concat_s ["(error ""first line of the message
+"; "second line"")
+"] = ("" ++ error_reply two_line_msg ++ "
+")%string
+   /\ has_quote two_line_msg = false)
+  /\ read_response Fix2 9 (ex_world ["(error ""Parse Error: <stdin>:3.7: Unexpected token: '('.
+" ; "
+" ; "  (assert (|a b| x))
+" ; "          ^"")
+" ; "sat
+"] TAlive)
+     = Err (EFromSolver "Parse Error: <stdin>:3.7: Unexpected token: '('.
+
+  (assert (|a b| x))
+          ^") (mkW ["sat
+"] TAlive [] None [] 4)
+  /\ read_response Fix 9 (ex_world ["(error ""Parse Error: <stdin>:3.7: Unexpected token: '('.
+" ; "
+" ; "  (assert (|a b| x))
+" ; "          ^"")
+" ; "sat
+"] TAlive)
+     = Err (EFromSolver "Parse Error: <stdin>:3.7: Unexpected token: '('.
+ 
+   (assert (|a b| x))
+           ^") (mkW ["sat
+"] TAlive [] None [] 4)
+  /\ trim_of (read_response Fix2 9 (ex_world ["((a
+" ; "#b1
+" ; "))
+"] TAlive)) = Some "((a
+#b1
+))"
+  /\ (exists w', bmc_session ex_parse Fix2 50 1 ex_cfg (ex_world ["unsat
+"; "sat
+"; "((b
+ true))
+"; "((s #b01))
+"; "((i #b1))
+"; "((i #b0))
+"] TAlive) = Ok (VFail 1 ["((b
+ true))"; "((s #b01))"; "((i #b1))"; "((i #b0))"]) w').
+Proof. vm_compute. repeat split; try reflexivity. eexists; reflexivity. Qed.
+
 (* ================================================================== PDR (added by the C10 work) *)
 
 (** ** solver faults in the concrete model of pdr.rs (Model/PdrImpl.v)
@@ -351,3 +499,195 @@ Example C15_pdr_model_examples :
   (match c15x_run (fun s => Nat.eqb s 3) true 0 (PdrImpl.AUnknown _ _ _) with
    | PdrImpl.Err (PdrImpl.EUnknown _ PdrImpl.KBad) _ => true | _ => false end) = true.
 Proof. vm_compute. split; reflexivity. Qed.
+
+(* ================================================================== PDR: faults at ANY position of a run *)
+From Coq Require Import Bool Arith.
+From Patronus Require PdrFaultPosProofs.
+
+(** ** faults at ANY position of a run of the concrete PDR model (Proofs/PdrFaultPosProofs.v)
+
+    [PdrFaultPosProofs.qlog l]: the queries of the log [l] with their answers, oldest first;
+    [PdrFaultPosProofs.asked l n q a]: the n-th consultation of the oracle recorded in [l] was query [q]
+    and got answer [a]; [PdrFaultPosProofs.numbered solve l]: every query recorded in [l] carries the
+    oracle's answer for its running number ([asked l n q a -> a = solve n q]). *)
+
+(** The log is complete and numbered.  (1) When a verdict is returned, the log records exactly the
+    [p_q] consultations of the oracle, each with the oracle's answer for its running number, and the
+    commands issued are the commands 0 .. p_c - 1, none of which failed.  (2) The log of an error is
+    numbered too. *)
+Theorem C15_pdr_model_log_complete :
+  forall (lit : Type) (lit_eqb : lit -> lit -> bool) (St : Type) (cube_of_state : St -> list lit) (W EM : Type)
+         (solve : nat -> PdrImpl.query lit -> PdrImpl.answer lit St EM) (cmd_fail : nat -> option EM) (n_init : nat)
+         (gen_on has_bads : bool) (bmc_result : PdrImpl.bmc_answer W EM) (fuel bf : nat),
+    (forall v st', PdrImpl.pdr lit lit_eqb St cube_of_state W EM solve cmd_fail n_init gen_on has_bads bmc_result fuel bf
+                   = @PdrImpl.Ok lit St EM _ (v, st') ->
+                   length (PdrFaultPosProofs.qlog lit St EM (PdrImpl.p_log lit St EM st')) = PdrImpl.p_q lit St EM st' /\
+                   PdrFaultPosProofs.numbered lit St EM solve (PdrImpl.p_log lit St EM st') /\
+                   (forall i, i < PdrImpl.p_c lit St EM st' -> cmd_fail i = None)) /\
+    (forall e log, PdrImpl.pdr lit lit_eqb St cube_of_state W EM solve cmd_fail n_init gen_on has_bads bmc_result fuel bf
+                   = @PdrImpl.Err lit St EM _ e log ->
+                   PdrFaultPosProofs.numbered lit St EM solve log).
+Proof. exact PdrFaultPosProofs.pdr_model_log_complete. Qed.
+Print Assumptions C15_pdr_model_log_complete.
+
+(** An error answer at ANY position: if the oracle answers query [q] as the n-th consultation with an
+    error, then (1) no run that returns a verdict ever made that consultation; (2) a run that made it
+    returns exactly this error, the failing query is the newest event of its log, exactly n queries were
+    asked before it and everything before it is clean. *)
+Theorem C15_pdr_model_error_any_position :
+  forall (lit : Type) (lit_eqb : lit -> lit -> bool) (St : Type) (cube_of_state : St -> list lit) (W EM : Type)
+         (solve : nat -> PdrImpl.query lit -> PdrImpl.answer lit St EM) (cmd_fail : nat -> option EM) (n_init : nat)
+         (gen_on has_bads : bool) (bmc_result : PdrImpl.bmc_answer W EM) (fuel bf : nat)
+         (n : nat) (q : PdrImpl.query lit) (m : EM),
+    solve n q = PdrImpl.AErr lit St EM m ->
+    (forall v st' a, PdrImpl.pdr lit lit_eqb St cube_of_state W EM solve cmd_fail n_init gen_on has_bads bmc_result fuel bf
+                     = @PdrImpl.Ok lit St EM _ (v, st') ->
+                     ~ PdrFaultPosProofs.asked lit St EM (PdrImpl.p_log lit St EM st') n q a) /\
+    (forall e log a, PdrImpl.pdr lit lit_eqb St cube_of_state W EM solve cmd_fail n_init gen_on has_bads bmc_result fuel bf
+                     = @PdrImpl.Err lit St EM _ e log ->
+                     PdrFaultPosProofs.asked lit St EM log n q a ->
+                     e = PdrImpl.ESolver EM m /\
+                     exists l0, log = PdrImpl.EvQuery lit St EM q (PdrImpl.AErr lit St EM m) :: l0 /\
+                                length (PdrFaultPosProofs.qlog lit St EM l0) = n /\
+                                PdrFaultProofs.clean lit St EM l0).
+Proof. exact PdrFaultPosProofs.pdr_model_error_any_position. Qed.
+Print Assumptions C15_pdr_model_error_any_position.
+
+(** A failing command at ANY position.  (1) A run that returns a verdict never issued a failing command:
+    if command i fails, fewer than i+1 commands were issued.  (2) A run whose log ends with the failure
+    of command idx returns that command's error, idx is the FIRST failing command, everything before the
+    failure is clean. *)
+Theorem C15_pdr_model_cmd_failure_any_position :
+  forall (lit : Type) (lit_eqb : lit -> lit -> bool) (St : Type) (cube_of_state : St -> list lit) (W EM : Type)
+         (solve : nat -> PdrImpl.query lit -> PdrImpl.answer lit St EM) (cmd_fail : nat -> option EM) (n_init : nat)
+         (gen_on has_bads : bool) (bmc_result : PdrImpl.bmc_answer W EM) (fuel bf : nat),
+    (forall v st' i m, PdrImpl.pdr lit lit_eqb St cube_of_state W EM solve cmd_fail n_init gen_on has_bads bmc_result fuel bf
+                       = @PdrImpl.Ok lit St EM _ (v, st') ->
+                       cmd_fail i = Some m -> PdrImpl.p_c lit St EM st' <= i) /\
+    (forall e idx m l0, PdrImpl.pdr lit lit_eqb St cube_of_state W EM solve cmd_fail n_init gen_on has_bads bmc_result fuel bf
+                        = @PdrImpl.Err lit St EM _ e (PdrImpl.EvCmdFail lit St EM idx m :: l0) ->
+                        e = PdrImpl.ESolver EM m /\ cmd_fail idx = Some m /\
+                        (forall i, i < idx -> cmd_fail i = None) /\ PdrFaultProofs.clean lit St EM l0).
+Proof. exact PdrFaultPosProofs.pdr_model_cmd_failure_any_position. Qed.
+Print Assumptions C15_pdr_model_cmd_failure_any_position.
+
+(** An unknown answer at ANY position, to a query of a kind where pdr.rs does not go on (get_bad_cube,
+    fix_gen_cube's two queries): (1) no run that returns a verdict made that consultation; (2) a run that
+    made it returns [EUnknown] of that kind, the query is the newest event, n queries before it, clean
+    before it.  (For relative-induction queries and the query against the infinite frame the run may
+    go on: C15_pdr_model_unknown, C15_pdr_unknown_never_verdict_refuted.) *)
+Theorem C15_pdr_model_unknown_any_position :
+  forall (lit : Type) (lit_eqb : lit -> lit -> bool) (St : Type) (cube_of_state : St -> list lit) (W EM : Type)
+         (solve : nat -> PdrImpl.query lit -> PdrImpl.answer lit St EM) (cmd_fail : nat -> option EM) (n_init : nat)
+         (gen_on has_bads : bool) (bmc_result : PdrImpl.bmc_answer W EM) (fuel bf : nat)
+         (n : nat) (q : PdrImpl.query lit),
+    solve n q = PdrImpl.AUnknown lit St EM ->
+    PdrImpl.q_kind lit q <> PdrImpl.KRelInd -> PdrImpl.q_kind lit q <> PdrImpl.KInf ->
+    (forall v st' a, PdrImpl.pdr lit lit_eqb St cube_of_state W EM solve cmd_fail n_init gen_on has_bads bmc_result fuel bf
+                     = @PdrImpl.Ok lit St EM _ (v, st') ->
+                     ~ PdrFaultPosProofs.asked lit St EM (PdrImpl.p_log lit St EM st') n q a) /\
+    (forall e log a, PdrImpl.pdr lit lit_eqb St cube_of_state W EM solve cmd_fail n_init gen_on has_bads bmc_result fuel bf
+                     = @PdrImpl.Err lit St EM _ e log ->
+                     PdrFaultPosProofs.asked lit St EM log n q a ->
+                     e = PdrImpl.EUnknown EM (PdrImpl.q_kind lit q) /\
+                     exists l0, log = PdrImpl.EvQuery lit St EM q (PdrImpl.AUnknown lit St EM) :: l0 /\
+                                length (PdrFaultPosProofs.qlog lit St EM l0) = n /\
+                                PdrFaultProofs.clean lit St EM l0).
+Proof. exact PdrFaultPosProofs.pdr_model_unknown_any_position. Qed.
+Print Assumptions C15_pdr_model_unknown_any_position.
+
+(** A verdict rests on intact answers only: when a verdict is returned, EVERY consultation 0 .. p_q - 1
+    of the oracle is in the log with the oracle's answer, none of these answers is an error, an unknown
+    answer occurs only at a relative-induction query or at the query against the infinite frame; no
+    command failed; a Fail verdict is the BMC fallback's own (so none when the fallback failed). *)
+Theorem C15_pdr_model_verdict_intact :
+  forall (lit : Type) (lit_eqb : lit -> lit -> bool) (St : Type) (cube_of_state : St -> list lit) (W EM : Type)
+         (solve : nat -> PdrImpl.query lit -> PdrImpl.answer lit St EM) (cmd_fail : nat -> option EM) (n_init : nat)
+         (gen_on has_bads : bool) (bmc_result : PdrImpl.bmc_answer W EM) (fuel bf : nat)
+         (v : PdrImpl.verdict W) (st' : PdrImpl.pst lit St EM),
+    PdrImpl.pdr lit lit_eqb St cube_of_state W EM solve cmd_fail n_init gen_on has_bads bmc_result fuel bf
+    = @PdrImpl.Ok lit St EM _ (v, st') ->
+    (forall n, n < PdrImpl.p_q lit St EM st' ->
+       exists q, PdrFaultPosProofs.asked lit St EM (PdrImpl.p_log lit St EM st') n q (solve n q) /\
+                 (forall m, solve n q <> PdrImpl.AErr lit St EM m) /\
+                 (solve n q = PdrImpl.AUnknown lit St EM ->
+                  PdrImpl.q_kind lit q = PdrImpl.KRelInd \/ PdrImpl.q_kind lit q = PdrImpl.KInf)) /\
+    (forall i, i < PdrImpl.p_c lit St EM st' -> cmd_fail i = None) /\
+    (forall w, v = PdrImpl.VFail W w -> bmc_result = PdrImpl.BmcFail W EM w) /\
+    (forall m, bmc_result = PdrImpl.BmcErr W EM m -> forall w, v <> PdrImpl.VFail W w).
+Proof. exact PdrFaultPosProofs.pdr_model_verdict_intact. Qed.
+Print Assumptions C15_pdr_model_verdict_intact.
+
+(** Non-vacuity, on the counter 0 -> 1 -> 2 -> 0 (bad = 3: safe, bad = 2: unsafe), with and without
+    unsat-core generalisation: a fault injected at EVERY position of the fault-free run. *)
+Definition c15p_lit : Type := (nat * bool)%type.
+Definition c15p_lit_eqb (a b : c15p_lit) : bool := andb (Nat.eqb (fst a) (fst b)) (Bool.eqb (snd a) (snd b)).
+Definition c15p_holds (l : c15p_lit) (s : nat) : bool := Bool.eqb (Nat.testbit s (fst l)) (snd l).
+Definition c15p_cube (s : nat) : list c15p_lit := (0%nat, Nat.testbit s 0) :: (1%nat, Nat.testbit s 1) :: nil.
+Definition c15p_step0 (s s' : nat) : bool := andb (Nat.eqb s 0) (Nat.eqb s' 1).
+Definition c15p_trans (s s' : nat) : bool := Nat.eqb s' (if Nat.leb 2 s then 0%nat else S s).
+Definition c15p_states : list nat := (0 :: 1 :: 2 :: 3 :: nil)%nat.
+(** the exhaustive-search oracle of the counter, except that query number k gets [a] when [qf = Some (k, a)] *)
+Definition c15p_oracle (bad : nat -> bool) (qf : option (nat * PdrImpl.answer c15p_lit nat unit))
+           (n : nat) (q : PdrImpl.query c15p_lit) : PdrImpl.answer c15p_lit nat unit :=
+  let honest := PdrImpl.enum_solve c15p_lit nat unit c15p_holds (fun s => andb (Nat.eqb s 0) (bad s)) c15p_step0 c15p_trans bad c15p_states n q in
+  match qf with
+  | Some (k, a) => if Nat.eqb n k then a else honest
+  | None => honest
+  end.
+(** ... and command number k fails when [cf = Some k] *)
+Definition c15p_run (bad : nat -> bool) (gen : bool) (qf : option (nat * PdrImpl.answer c15p_lit nat unit)) (cf : option nat) :=
+  PdrImpl.pdr c15p_lit c15p_lit_eqb nat c15p_cube unit unit (c15p_oracle bad qf)
+              (fun i => match cf with Some k => if Nat.eqb i k then Some tt else None | None => None end)
+              3 gen true (PdrImpl.BmcFail unit unit tt) 50 50.
+(** queries / commands of the fault-free run *)
+Definition c15p_nq (bad : nat -> bool) (gen : bool) : nat :=
+  match c15p_run bad gen None None with PdrImpl.Ok (_, st) => PdrImpl.p_q _ _ _ st | _ => 0%nat end.
+Definition c15p_nc (bad : nat -> bool) (gen : bool) : nat :=
+  match c15p_run bad gen None None with PdrImpl.Ok (_, st) => PdrImpl.p_c _ _ _ st | _ => 0%nat end.
+(** 0 = an error is returned, 1 / 2 / 3 = verdict Success / Fail / Unknown, 4 = panic, 5 = out of fuel *)
+Definition c15p_tag (r : PdrImpl.res c15p_lit nat unit (PdrImpl.verdict unit * PdrImpl.pst c15p_lit nat unit)) : nat :=
+  match r with
+  | PdrImpl.Ok (PdrImpl.VSuccess _, _) => 1%nat
+  | PdrImpl.Ok (PdrImpl.VFail _ _, _) => 2%nat
+  | PdrImpl.Ok (PdrImpl.VUnknown _, _) => 3%nat
+  | PdrImpl.Err _ _ => 0%nat
+  | PdrImpl.Panic _ => 4%nat
+  | PdrImpl.Fuel => 5%nat
+  end.
+(** (a) an error answer at query k: the run returns it, newest event, k queries before it *)
+Definition c15p_err_at (bad : nat -> bool) (gen : bool) (k : nat) : bool :=
+  match c15p_run bad gen (Some (k, PdrImpl.AErr _ _ _ tt)) None with
+  | PdrImpl.Err (PdrImpl.ESolver _ tt) (PdrImpl.EvQuery _ _ _ _ (PdrImpl.AErr _ _ _ tt) :: l0) =>
+      Nat.eqb (length (PdrFaultPosProofs.qlog _ _ _ l0)) k
+  | _ => false
+  end.
+(** (b) command k fails: the run returns it, newest event, with index k *)
+Definition c15p_cmd_at (bad : nat -> bool) (gen : bool) (k : nat) : bool :=
+  match c15p_run bad gen None (Some k) with
+  | PdrImpl.Err (PdrImpl.ESolver _ tt) (PdrImpl.EvCmdFail _ _ _ idx tt :: _) => Nat.eqb idx k
+  | _ => false
+  end.
+(** (c) an unknown answer at query k: an error, or the verdict of the fault-free run *)
+Definition c15p_unk_at (bad : nat -> bool) (gen : bool) (k : nat) : bool :=
+  let t := c15p_tag (c15p_run bad gen (Some (k, PdrImpl.AUnknown _ _ _)) None) in
+  orb (Nat.eqb t 0) (Nat.eqb t (c15p_tag (c15p_run bad gen None None))).
+Definition c15p_all (bad : nat -> bool) (gen : bool) : bool :=
+  andb (forallb (c15p_err_at bad gen) (seq 0 (c15p_nq bad gen)))
+       (andb (forallb (c15p_cmd_at bad gen) (seq 0 (c15p_nc bad gen)))
+             (forallb (c15p_unk_at bad gen) (seq 0 (c15p_nq bad gen)))).
+(** the fault-free runs: Success after 7 (5 without generalisation) queries and 20 commands on the safe
+    system, Fail after 9 (8) queries and 30 commands on the unsafe one; then, for EVERY query position k
+    of the fault-free run, (a) an error answer at k is returned as the run's result (newest event, k
+    queries before it) and (c) an unknown answer at k gives an error or the verdict of the fault-free
+    run - never Success for Fail or Fail for Success; (b) for EVERY command position k of the
+    fault-free run, the failure of command k is returned as the run's result (newest event, index k). *)
+Example C15_pdr_pos_examples :
+  (c15p_tag (c15p_run (fun s => Nat.eqb s 3) true None None), c15p_nq (fun s => Nat.eqb s 3) true, c15p_nc (fun s => Nat.eqb s 3) true) = (1, 7, 20)%nat /\
+  (c15p_tag (c15p_run (fun s => Nat.eqb s 3) false None None), c15p_nq (fun s => Nat.eqb s 3) false, c15p_nc (fun s => Nat.eqb s 3) false) = (1, 5, 20)%nat /\
+  (c15p_tag (c15p_run (fun s => Nat.eqb s 2) true None None), c15p_nq (fun s => Nat.eqb s 2) true, c15p_nc (fun s => Nat.eqb s 2) true) = (2, 9, 30)%nat /\
+  (c15p_tag (c15p_run (fun s => Nat.eqb s 2) false None None), c15p_nq (fun s => Nat.eqb s 2) false, c15p_nc (fun s => Nat.eqb s 2) false) = (2, 8, 30)%nat /\
+  c15p_all (fun s => Nat.eqb s 3) true = true /\ c15p_all (fun s => Nat.eqb s 3) false = true /\
+  c15p_all (fun s => Nat.eqb s 2) true = true /\ c15p_all (fun s => Nat.eqb s 2) false = true.
+Proof. vm_compute. repeat split; reflexivity. Qed.
+Print Assumptions C15_pdr_pos_examples.
